@@ -7,6 +7,7 @@ use std::panic::{catch_unwind, AssertUnwindSafe};
 
 mod util;
 mod angles;
+mod series;
 mod frames;
 mod spatial;
 mod rcp;
@@ -38,6 +39,7 @@ fn dispatch(rec: &Value, st: &mut State) -> Value {
     let m = rec["m"].as_str().unwrap_or("");
     match m {
         "angles" => angles::exec(rec, st),
+        "series" => series::exec(rec, st),
         "frames" => frames::exec(rec, st),
         "spatial" => spatial::exec(rec, st),
         "rcp" => rcp::exec(rec, st),
